@@ -504,3 +504,33 @@ theorem getStatements_imports (S : List Imp) (sep : Bool) (sts : List Stmt)
   exact hkeys.mem_iff.mpr ((mem_dedup _ _).mpr (List.mem_map.mpr ⟨i, hi, rfl⟩))
 
 example : (∀ i ∈ dedup impsEx, Imp.fromSplit i.split = i) := by decide +kernel
+
+/-- **split_roundtrip**: `Import.from_split(imp.split) == imp` for every import whose fullname is
+    leading dots followed by a non-empty dotted path without empty components (`wfName`), whatever the
+    local name. -/
+theorem split_roundtrip (i : Imp) (h : wfName i.fullname = true) : Imp.fromSplit i.split = i :=
+  fromSplit_split i h
+
+example : wfName "..pkg.mod.name".toList = true ∧
+    (Imp.mk "..pkg.mod.name".toList "x".toList).split = ⟨some "..pkg.mod".toList, "name".toList, some "x".toList⟩ := by
+  constructor <;> decide +kernel
+
+/-- without the hypothesis the round trip fails: an empty component is swallowed -/
+example : Imp.fromSplit (Imp.mk "a..b".toList "x".toList).split ≠ Imp.mk "a..b".toList "x".toList := by
+  decide +kernel
+
+/-- **C11_imports_exact** — the headline of the round trip for the code as it is now: if `pretty` returns
+    a text for imports with well-formed fullnames whose statements carry valid Python names, then the text
+    parses, and the imports of the parsed statements are a permutation of the (duplicate-free) input set:
+    same fullname and local name each, nothing lost, duplicated or merged. -/
+theorem C11_imports_exact (imps : List Imp) (p : Params) (text : Str) (hfix : p.d2fix = true)
+    (h : pretty imps p = .ok text) (hwf : ∀ i ∈ imps, wfName i.fullname = true)
+    (hvalid : ∀ sts, getStatements (dedup imps) p.sepFrom = .ok sts → ∀ st ∈ sts, validStmt st = true) :
+    ∃ back, parseBlock text = some back ∧ (back.flatMap Stmt.imports).Perm (dedup imps) := by
+  obtain ⟨stmts, col, h1, _, h3⟩ := C11_roundtrip imps p text hfix h
+  obtain ⟨back, hb, _, hi⟩ := h3 (hvalid stmts h1)
+  refine ⟨back, hb, ?_⟩
+  rw [hi]
+  exact getStatements_imports _ _ _ h1 (fun i hi => fromSplit_split i (hwf i ((mem_dedup i imps).mp hi)))
+
+example : (∀ i ∈ impsEx, wfName i.fullname = true) := by decide +kernel
